@@ -28,6 +28,50 @@ NOT_DECIDED = "that the predicates are evaluated on the right window for every s
 SOLVER_CALLS = {"sample_non_uniform", "sample_uniform", "sample_ilp_iterate", "UCSolutionEnumerator", "execute", "encode_experiment"}
 
 
+def gate_rule(ctx, R):
+    """every exported Gen subclass that builds sequences consults block.show_errors() before any solving / enumeration
+    and returns an empty result when it reports a fatal error (shared with C08)"""
+    repo = ctx.repo
+    # ---- gate in every sampler
+    gen = repo.cls("base:Gen")
+    n = 0
+    exported = set(ast.literal_eval(repo.module("main").assigns["__all__"]))
+    for c in sorted(gen.all_subclasses(), key=lambda c: c.name):
+        if c.name not in exported:
+            ctx.note("sampling strategy %s is not exported by the package and is outside the property" % c.name)
+            continue
+        for mname in ("sample", "sample_object", "_RandomGen__sample", "__sample"):
+            m = c.methods.get(mname)
+            if m is None:
+                continue
+            work = [k for k in calls(m.node) if call_attr(k) in SOLVER_CALLS]
+            if not work:
+                # pure delegation to another Gen method
+                deleg = [k for k in calls(m.node) if call_attr(k) in ("sample", "__sample", "sample_object")]
+                ctx.check(bool(deleg) or c.name == "Gen", R, m, "%s.%s delegates" % (c.name, mname), "%s.%s delegates to a gated sampler" % (c.name, mname),
+                          "%s.%s neither samples nor delegates" % (c.name, mname), trivial=True)
+                continue
+            n += 1
+            if c.name == "SMGen":
+                ctx.exception("SMGen.sample", "validates derivations itself by raising; refusal list is C29's")
+                ctx.ok(R, m, "SMGen.sample: frozen exception (own validation)", trivial=True)
+                continue
+            gm = CFG(m.node)
+            gates = [s for s in statements(m.node) if isinstance(s, ast.If) and ast.unparse(s.test) == "block.show_errors()"]
+            ok = len(gates) == 1 and isinstance(gates[0].body[-1], ast.Return) and "SamplingResult([]" in ast.unparse(gates[0].body[-1])
+            if ok:
+                gn = gm.node_of(gates[0])
+                for k in work:
+                    st = [s for s in statements(m.node) if any(x is k for x in ast.walk(s)) and gm.has(s)]
+                    st = st[-1]
+                    ok = ok and gm.dominates(gn, gm.node_of(st)) and gm.node_of(st).id not in gm.reachable(gn, edge_filter=lambda a, b, lab: not (a is gn and lab == "F"))
+            ctx.check(ok, R, m, "%s.%s gate" % (c.name, mname), "%s.%s returns an empty result on fatal errors before any solving" % (c.name, mname),
+                      "%s.%s can reach its solver / enumerator without block.show_errors() having been consulted (or ignores its verdict)" % (c.name, mname), m.node)
+    ctx.require(n >= 5, "only %d sampling methods found" % n)
+
+    return n
+
+
 def check(ctx):
     repo = ctx.repo
     R = "C15.overlap"
@@ -107,43 +151,7 @@ def check(ctx):
                 ctx.ok(R, h, "errors.add %s entry: %s" % (kind, sk[:70].replace("\n", " ")), c, trivial=True)
     ctx.require(n_fatal >= 1 and n_warn >= 3, "writers of block.errors changed (fatal %d, warning %d)" % (n_fatal, n_warn))
 
-    # ---- gate in every sampler
-    R = "C15.gate"
-    gen = repo.cls("base:Gen")
-    n = 0
-    exported = set(ast.literal_eval(repo.module("main").assigns["__all__"]))
-    for c in sorted(gen.all_subclasses(), key=lambda c: c.name):
-        if c.name not in exported:
-            ctx.note("sampling strategy %s is not exported by the package and is outside the property" % c.name)
-            continue
-        for mname in ("sample", "sample_object", "_RandomGen__sample", "__sample"):
-            m = c.methods.get(mname)
-            if m is None:
-                continue
-            work = [k for k in calls(m.node) if call_attr(k) in SOLVER_CALLS]
-            if not work:
-                # pure delegation to another Gen method
-                deleg = [k for k in calls(m.node) if call_attr(k) in ("sample", "__sample", "sample_object")]
-                ctx.check(bool(deleg) or c.name == "Gen", R, m, "%s.%s delegates" % (c.name, mname), "%s.%s delegates to a gated sampler" % (c.name, mname),
-                          "%s.%s neither samples nor delegates" % (c.name, mname), trivial=True)
-                continue
-            n += 1
-            if c.name == "SMGen":
-                ctx.exception("SMGen.sample", "validates derivations itself by raising; refusal list is C29's")
-                ctx.ok(R, m, "SMGen.sample: frozen exception (own validation)", trivial=True)
-                continue
-            gm = CFG(m.node)
-            gates = [s for s in statements(m.node) if isinstance(s, ast.If) and ast.unparse(s.test) == "block.show_errors()"]
-            ok = len(gates) == 1 and isinstance(gates[0].body[-1], ast.Return) and "SamplingResult([]" in ast.unparse(gates[0].body[-1])
-            if ok:
-                gn = gm.node_of(gates[0])
-                for k in work:
-                    st = [s for s in statements(m.node) if any(x is k for x in ast.walk(s)) and gm.has(s)]
-                    st = st[-1]
-                    ok = ok and gm.dominates(gn, gm.node_of(st)) and gm.node_of(st).id not in gm.reachable(gn, edge_filter=lambda a, b, lab: not (a is gn and lab == "F"))
-            ctx.check(ok, R, m, "%s.%s gate" % (c.name, mname), "%s.%s returns an empty result on fatal errors before any solving" % (c.name, mname),
-                      "%s.%s can reach its solver / enumerator without block.show_errors() having been consulted (or ignores its verdict)" % (c.name, mname), m.node)
-    ctx.require(n >= 5, "only %d sampling methods found" % n)
+    gate_rule(ctx, "C15.gate")
 
     # ---- applicability
     R = "C15.applicability"
